@@ -43,6 +43,10 @@ CLAIMED = {
             "For each enumerated pair of construction histories and insertion orders z3 proves (a op b)[t] = a[t] op b[t] for ALL block values and scalars; "
             "mixed type sets are rejected; __eq__'s truth table over all allclose outcomes equals the type-wise conjunction.",
             "Reals; tiny blocks (N=2); histories of length <=2 sampled; allclose itself is stubbed for __eq__.", "4/C12"),
+    "C13": (JX, "symbolic execution of the real re-layout methods composed into round trips; z3 (QF_LRA) identity per block; metadata read off the traced objects",
+            "For each enumerated signature/order/leading-axis layout and every applicable inverse pair (and seeded chains of <=3) z3 proves "
+            "roundtrip(x) = x for ALL entries; to_scalar_multi_image equals its documented channel layout.",
+            "save/load (file I/O) is outside and NOT claimed; bounded signatures (k<=3, channels<=4), 0-3 leading axes, d<=3.", "4/C13"),
 }
 
 NOT_YET = {}
